@@ -3,6 +3,7 @@ ladim.main.main on the working tree under test; reading output files back."""
 from __future__ import annotations
 
 import contextlib
+import gc
 import io
 import logging
 import os
@@ -188,6 +189,9 @@ def run(conf, d, name="ladim.yaml", fmt="yaml"):
         return type(e).__name__
     finally:
         os.chdir(cwd)
+        # a run that died in the time loop leaves its output data set open (and its records unflushed) until the
+        # objects of the run are collected: what the interpreter would write at exit must be on disk before anyone counts records
+        gc.collect()
         # drop handlers that main() installs on every call
         root = logging.getLogger()
         for h in list(root.handlers):
